@@ -9,7 +9,7 @@ Search: direct property oracle on the generated WCS families.
 """
 import numpy as np
 
-from lib.common import gz, gzl, glist
+from lib.common import gz, gzl, glist, gbool
 from lib import pipes, families
 
 LEVEL = "proof"
@@ -18,7 +18,7 @@ RULE = ("(a) histories of pixel_shape/array_shape assignments (valid, wrong leng
         "unit transforms, boxes, fix_inputs-derived): values = call/invert, reversal, dims, bounds, separability probing. "
         "non-trivial = history with an accepted and a rejected assignment / point with a fractional part; distinct by content")
 ASSUMPTIONS = [
-    "astropy.modeling.separable.separability_matrix is external (axis_correlation_matrix forwards it); its soundness is probed dynamically",
+    "astropy.modeling.separable.separability_matrix is external (axis_correlation_matrix forwards it): modelled by hand in C13/Separable.v (proved sound there), tied by entry-by-entry correspondence on random compound transforms and probed dynamically",
     "pixel_to_world_values / world_to_pixel_values / invert are Section variables of the regenerated wrappers (their own unit handling: C16)",
 ]
 THEOREMS = ["C13_array_index_to_world_is_rev", "C13_world_to_array_index_values_spec", "C13_world_to_array_index_spec",
@@ -259,6 +259,149 @@ def separability_after_edits(ctx, rng, problems):
                         return
 
 
+SEP_HEADER = ("From Coq Require Import ZArith List Bool. Import ListNotations.\n"
+              "From GW Require Import C13.Separable.\n")
+
+
+def _sep_gen(rng, nin, depth):
+    """random compound transform with `nin` inputs: (astropy model, Gallina term, n_outputs, exact, leaves).
+    exact = every leaf is integer-valued, so that Coq's `eval` can be compared with the implementation's evaluation."""
+    from astropy.modeling import models as M
+    from gwcs import geometry as G
+
+    def leaf(n):
+        if n == 1:
+            c = rng.random()
+            k = rng.randint(-4, 4)
+            if c < 0.35:
+                return M.Shift(k), f"(shift ({k})%Z)", 1, True, 1
+            if c < 0.65:
+                return M.Scale(k), f"(scale ({k})%Z)", 1, True, 1
+            if c < 0.85:
+                m = [0] * rng.randint(1, 3)
+                return M.Mapping(tuple(m), n_inputs=1), "(Map 1 [" + "; ".join("0" for _ in m) + "]%nat)", len(m), True, 1
+            return M.Polynomial1D(2, c0=1.5, c1=0.25, c2=0.125), "(sepn 1)", 1, False, 1
+        if n == 2:
+            c = rng.random()
+            if c < 0.3:
+                a, b, cc, d, e, f = (rng.randint(-3, 3) for _ in range(6))
+                return (M.AffineTransformation2D(matrix=[[a, b], [cc, d]], translation=[e, f]),
+                        f"(aff2 ({a})%Z ({b})%Z ({cc})%Z ({d})%Z ({e})%Z ({f})%Z)", 2, True, 1)
+            if c < 0.5:
+                a, b, cc = (rng.randint(-3, 3) for _ in range(3))
+                return M.Polynomial2D(1, c0_0=a, c1_0=b, c0_1=cc), f"(poly21 ({a})%Z ({b})%Z ({cc})%Z)", 1, True, 1
+            if c < 0.6:
+                return M.Rotation2D(33.0), "(mixn 2 2)", 2, False, 1
+            if c < 0.7:
+                return M.Pix2Sky_TAN(), "(mixn 2 2)", 2, False, 1
+            if c < 0.8:
+                return G.SphericalToCartesian(), "(mixn 2 3)", 3, False, 1
+        if n == 3 and rng.random() < 0.3:
+            return G.CartesianToSpherical(), "(mixn 3 2)", 2, False, 1
+        if n == 3 and rng.random() < 0.15:
+            return M.RotationSequence3D([10.0, 20.0], "zx"), "(mixn 3 3)", 3, False, 1
+        if rng.random() < 0.15:
+            return M.Identity(n), f"(Map {n} [" + "; ".join(str(i) for i in range(n)) + "]%nat)", n, True, 1
+        m = [rng.randrange(n) for _ in range(rng.randint(1, 4))]
+        return M.Mapping(tuple(m), n_inputs=n), f"(Map {n} [" + "; ".join(map(str, m)) + "]%nat)", len(m), True, 1
+
+    if depth <= 0:
+        if nin >= 2 and rng.random() < 0.6:
+            k = rng.randint(1, nin - 1)
+            a, b = _sep_gen(rng, k, 0), _sep_gen(rng, nin - k, 0)
+            return a[0] & b[0], f"(Par {a[1]} {b[1]})", a[2] + b[2], a[3] and b[3], a[4] + b[4]
+        return leaf(nin)
+    c = rng.random()
+    if c < 0.45:
+        a = _sep_gen(rng, nin, depth - 1)
+        b = _sep_gen(rng, a[2], depth - 1)
+        return a[0] | b[0], f"(Comp {a[1]} {b[1]})", b[2], a[3] and b[3], a[4] + b[4]
+    if c < 0.8 and nin >= 2:
+        k = rng.randint(1, nin - 1)
+        a, b = _sep_gen(rng, k, depth - 1), _sep_gen(rng, nin - k, depth - 1)
+        return a[0] & b[0], f"(Par {a[1]} {b[1]})", a[2] + b[2], a[3] and b[3], a[4] + b[4]
+    if c < 0.9:
+        a = _sep_gen(rng, nin, depth - 1)
+        if a[3]:
+            op = rng.choice(["add", "sub", "mul"])
+            b = _sep_gen(rng, nin, depth - 1)
+            if b[2] == a[2] and b[3]:
+                mod = {"add": a[0] + b[0], "sub": a[0] - b[0], "mul": a[0] * b[0]}[op]
+                return mod, f"(Arith Z.{op} {a[1]} {b[1]})", a[2], True, a[4] + b[4]
+        return a
+    return _sep_gen(rng, nin, depth - 1)
+
+
+def separability_correspondence(ctx, rng):
+    """axis_correlation_matrix of WCSs over random compound transforms = `depmat` of the Coq model (entry by entry);
+    for integer-valued transforms also `eval` = the implementation's forward evaluation, and the dynamic clause itself:
+    moving a pixel coordinate marked False leaves the world coordinate unchanged."""
+    import warnings
+    from gwcs import wcs as gw
+    terms, meta, problems = [], [], []
+    n_cases = 120 if ctx.quick else 2500
+    tries = 0
+    while len(terms) < n_cases and tries < 20 * n_cases:
+        tries += 1
+        nin = rng.choice([1, 2, 2, 3, 3, 4])
+        try:
+            model, term, nout, exact, nleaf = _sep_gen(rng, nin, rng.randint(0, 3))
+        except Exception:   # noqa  (astropy refuses the combination at construction: not a case)
+            continue
+        if nout > 6 or nleaf > 12:
+            continue
+        split = getattr(model, "op", None) == "|" and rng.random() < 0.5
+        try:
+            if split:
+                w = gw.WCS([("detector", model.left), ("mid", model.right), ("world", None)])
+            else:
+                w = gw.WCS(forward_transform=model, input_frame="detector", output_frame="world")
+            with warnings.catch_warnings():
+                warnings.simplefilter("ignore")
+                Mx = np.asarray(w.axis_correlation_matrix)
+        except Exception as e:  # noqa
+            problems.append((f"axis_correlation_matrix raised {type(e).__name__}: {e} for {term}", {"transform": term}))
+            continue
+        if Mx.shape != (nout, nin) or Mx.dtype != np.bool_:
+            problems.append((f"axis_correlation_matrix has shape {Mx.shape} / dtype {Mx.dtype}, expected bool ({nout}, {nin}) for {term}",
+                             {"transform": term}))
+            continue
+        pts = []
+        for _ in range(3):
+            x = [rng.randint(-5, 5) for _ in range(nin)]
+            with warnings.catch_warnings():
+                warnings.simplefilter("ignore")
+                try:
+                    y = np.atleast_1d(np.asarray(w(*map(float, x), with_bounding_box=False), dtype=float)).ravel()
+                except Exception as e:  # noqa
+                    problems.append((f"forward evaluation raised {type(e).__name__}: {e} for {term}", {"transform": term, "point": x}))
+                    break
+                # the clause on the implementation: a False entry means moving that pixel coordinate changes nothing
+                for j in range(nin):
+                    q = list(map(float, x))
+                    q[j] += rng.choice([1.0, -2.0, 0.5])
+                    y2 = np.atleast_1d(np.asarray(w(*q, with_bounding_box=False), dtype=float)).ravel()
+                    for i in range(nout):
+                        if not Mx[i][j] and y2[i] != y[i] and not (np.isnan(y2[i]) and np.isnan(y[i])):
+                            problems.append((f"axis_correlation_matrix {Mx.tolist()} of {term} says world {i} is independent of pixel {j}, but moving "
+                                             f"pixel {j} from {x} to {q[j]} changes world {i} from {y[i]} to {y2[i]}",
+                                             {"transform": term, "point": x, "pixel_axis": j, "world_axis": i}))
+            if exact and np.all(np.isfinite(y)) and np.all(y == np.round(y)) and np.all(np.abs(y) < 2 ** 50):
+                pts.append((x, [int(v) for v in y]))
+        gm = glist([glist([gbool(bool(v)) for v in row]) for row in Mx])
+        gp = glist([f"({gzl(x)}, {gzl(y)})" for x, y in pts])
+        terms.append(f"({term}, {gm}, {gp})")
+        meta.append({"transform": term, "matrix": Mx.astype(int).tolist(), "points": pts[:1], "pipeline_steps": 2 if split else 1})
+        ctx.case(key=("sepmat", term), nontrivial=(not Mx.all()) or nleaf >= 3,
+                 kind=f"correlation-matrix/{nin}in/{'exact' if exact else 'shape-only'}",
+                 sample={"transform": term, "matrix": Mx.astype(int).tolist(), "eval_points": len(pts)})
+    fs = ctx.coq_failing("sepmat", SEP_HEADER, terms, "check_case", label="WC13")
+    ctx.oblige("correspondence: Separable.depmat / eval (vm_compute) = axis_correlation_matrix / forward evaluation on random compound transforms",
+               fs == [], "" if fs == [] else f"failing: {[meta[i] for i in (fs or [])[:3]]}")
+    return fs, meta, problems
+
+
+
 PINS = ["gwcs/api.py::GWCSAPIMixin.pixel_n_dim",
         "gwcs/api.py::GWCSAPIMixin.world_n_dim",
         "gwcs/api.py::GWCSAPIMixin.array_index_to_world",
@@ -278,6 +421,8 @@ def run(ctx):
     from lib import pins as _pins
     _pins.check(ctx, PINS)      # wrappers and properties outside the T2-translated set
     ctx.coq_theorems("C13/Toindex", ["toindex_nearest_halfup", "toindex_translate", "toindex_fl_eighths", "toindex_half_minus_ulp_refuted"])
+    ctx.coq_theorems("C13/Separable", ["dep_sound", "correlation_matrix_sound", "correlation_row_sound", "depmat_shape",
+                                       "ex_cube_matrix", "ex_cube_independent"])
     try:
         gen_src = G.gen(REPO)
         ctx.oblige("translate: gwcs/api.py index/shape wrappers within the py2coq subset", True)
@@ -343,6 +488,13 @@ def run(ctx):
         for fam in families.all_families(rng):
             oracle_family(ctx, fam, rng, problems)
     separability_after_edits(ctx, rng, problems)
+    fsep, meta_sep, sep_problems = separability_correspondence(ctx, rng)
+    problems.extend(sep_problems)
+    for i in (fsep or [])[:3]:
+        # the model is proved sound; a disagreeing matrix entry that is False where the model says True is a candidate unsound entry:
+        # look for a concrete pair of pixels on the implementation (done inside separability_correspondence); otherwise report the mismatch
+        problems.append((f"axis_correlation_matrix {meta_sep[i]['matrix']} of {meta_sep[i]['transform']} differs from the proved-sound "
+                         f"matrix model (Separable.depmat) or the forward evaluation differs from Separable.eval", meta_sep[i]))
     # known finding probe: the largest double below 0.5
     from gwcs import utils
     if int(utils._toindex(0.49999999999999994)) != 0:
